@@ -22,7 +22,8 @@ where
     }
 
     fn len(&self) -> usize {
-        self.source.len()
+        // Reads stop at the shorter of source and window starts; report that length.
+        self.source.len().min((self.window_starts)().len())
     }
 
     #[inline]
